@@ -741,7 +741,16 @@ impl<'a> UserModel<'a> {
             } else {
                 return Ok(());
             };
-        let [row_start, column_start, _row_end, _column_end] = range;
+        if !is_valid_row(target_row) || !is_valid_column_number(target_column) {
+            return Err(format!(
+                "Invalid target cell: ({target_row}, {target_column})"
+            ));
+        }
+        // The selection is extended from the selected cell, which must stay one of the
+        // corners of the range (the start of the current range may be another corner
+        // after the range was expanded with the keyboard).
+        let _ = range;
+        let (row_start, column_start) = (selected_row, selected_column);
 
         let mut new_left_column = left_column;
         if target_column >= selected_column {
